@@ -188,6 +188,21 @@ Theorem C17_failed_dial_escalates : forall b s s' o,
 Proof. exact ctl_failed_dial_escalates. Qed.
 Print Assumptions C17_failed_dial_escalates.
 
+(* the soft-teardown loop of Kill (STOP, RESET, EXIT until DONE) ends after at most three requests
+   whatever the device answers — refusals, transport errors, time-outs, and answers that
+   acknowledge a request without the device having moved: doTransition counts an answer as success
+   only if the reported state is the destination (read from the source), so every accepted step is
+   a step towards DONE *)
+Theorem C17_teardown_walk_terminates : forall st replies fuel,
+  (3 <= fuel)%nat -> snd (teardown_walk fuel st replies 0) = true.
+Proof. intros st replies fuel H. apply teardown_walk_fin. destruct st; cbn; lia. Qed.
+Print Assumptions C17_teardown_walk_terminates.
+
+Theorem C17_teardown_step_is_progress : forall dst r st',
+  accept_reply dst r = Some st' -> st' = dst.
+Proof. exact accept_reply_dst. Qed.
+Print Assumptions C17_teardown_step_is_progress.
+
 (* what remains (recorded, C17-j): a KILL before the dial returned is refused — the task goes on starting *)
 Theorem C17_kill_before_dial_refused :
   let '(s, t) := crun nbeh cinit [ALaunch; AKill] in
@@ -198,7 +213,7 @@ Print Assumptions C17_kill_before_dial_refused.
 (* non-vacuity: the hypotheses of the conditional theorems are met by concrete runs *)
 Example C17_nonvacuous :
   (* a controllable task that ignores TERM and INT: up, KILL, full escalation, reaped *)
-  (let b := mkBeh (DExit 0) true false false None false in
+  (let b := mkBeh (DExit 0) true false false None false true in
    let '(s1, t1) := crun b cinit [ALaunch; ADialOk; APollReady] in
    let '(s2, o) := cstep b s1 AKill in
    let '(s3, t3) := crun b s2 [AKillStep; AKillStep; AKillStep; AReap 0] in
